@@ -556,9 +556,16 @@ def _lower_stmt(st, pour_only=False):
 def _raise_stmt(st):
     """`for x in it: [if c:] acc.add(e)` (nothing else in the loop) -> `acc.update({e for x in it if c})`
     (`append` -> `extend([...])`): a loop that only collects is the comprehension it spells out."""
-    if not (isinstance(st, ast.For) and not st.orelse and len(st.body) == 1):
+    if not (isinstance(st, ast.For) and not st.orelse and st.body):
         return [st]
-    inner, ifs = st.body[0], []
+    body, ifs = list(st.body), []
+    # `if c: continue` ahead of the collecting statement is the filter `not c`
+    while len(body) > 1 and isinstance(body[0], ast.If) and not body[0].orelse and len(body[0].body) == 1 and isinstance(body[0].body[0], ast.Continue):
+        ifs.append(ast.copy_location(ast.UnaryOp(op=ast.Not(), operand=body[0].test), body[0].test))
+        body = body[1:]
+    if len(body) != 1:
+        return [st]
+    inner = body[0]
     while isinstance(inner, ast.If) and not inner.orelse and len(inner.body) == 1:
         ifs.append(inner.test)
         inner = inner.body[0]
@@ -584,6 +591,51 @@ def _raise_stmt(st):
     comp = (ast.SetComp if as_set else ast.ListComp)(elt=c.args[0], generators=[gen])
     call = ast.Call(func=ast.Attribute(value=c.func.value, attr="update" if as_set else "extend", ctx=ast.Load()), args=[comp], keywords=[])
     return [ast.fix_missing_locations(ast.copy_location(ast.Expr(value=call), st))]
+
+
+def plain_dict_fields(ck, cls):
+    """Fields of `cls` that only ever hold a dict the class made itself (every assignment is `dict()` / `{}`, a class-level
+    None aside): a lookup of a missing key in them raises KeyError.  A mapping handed in by the caller is not one of
+    them -- a defaultdict answers a missing key with a default and keeps it."""
+    vals = {}
+    for c in ck.repo.mro(cls):
+        for m in c.methods.values():
+            for n in A.walk_body(m.node):
+                if isinstance(n, (ast.Assign, ast.AnnAssign, ast.AugAssign)):
+                    pairs = _flat_targets(n) if not isinstance(n, ast.AugAssign) else [(n.target, None)]
+                    for (t, v) in pairs:
+                        f = self_attr(t)
+                        if f:
+                            vals.setdefault(f, []).append(v)
+    def fresh(v):
+        return v is not None and ((isinstance(v, ast.Dict) and not v.keys) or
+                                  (isinstance(v, ast.Call) and isinstance(v.func, ast.Name) and v.func.id == "dict" and not v.args and not v.keywords))
+    return {f for f, vs in vals.items() if vs and all(fresh(v) for v in vs)}
+
+
+def _lower_keyerror_try(st, plain=()):
+    """`try: return self.m[k] ... except KeyError: H [else: E]` (one statement tried, every lookup in it by the same
+    key in a plain dict of the class's own making, the exception object not used)  ->  `if k in self.m: return self.m[k]
+    ...; E  else: H`: asking forgiveness for a missing key is asking permission first.  (That nothing else in the
+    statement raises KeyError is taken as given.)"""
+    import copy
+    if not (isinstance(st, ast.Try) and len(st.handlers) == 1 and not st.finalbody and len(st.body) == 1):
+        return [st]
+    h = st.handlers[0]
+    if h.name is not None or not (isinstance(h.type, ast.Name) and h.type.id == "KeyError"):
+        return [st]
+    only = st.body[0]
+    if not isinstance(only, (ast.Return, ast.Assign, ast.AnnAssign)) or only.value is None:
+        return [st]
+    if any(isinstance(x, ast.Raise) and x.exc is None for b_ in h.body for x in ast.walk(b_)):
+        return [st]
+    subs = [x for x in ast.walk(only.value) if isinstance(x, ast.Subscript) and isinstance(x.ctx, ast.Load) and self_attr(x.value) and isinstance(x.slice, ast.Name)]
+    if not subs or len({x.slice.id for x in subs}) != 1 or not all(self_attr(x.value) in plain for x in subs):
+        return [st]
+    first = min(subs, key=lambda x: (x.lineno, x.col_offset))
+    test = ast.Compare(left=ast.Name(id=first.slice.id, ctx=ast.Load()), ops=[ast.In()], comparators=[copy.deepcopy(first.value)])
+    new = ast.If(test=test, body=[only] + list(st.orelse), orelse=list(h.body))
+    return [ast.fix_missing_locations(ast.copy_location(new, st))]
 
 
 def _rewrite_blocks(node, one):
@@ -703,12 +755,76 @@ def _merge_parts(node):
     return node
 
 
+def strip_order(it):
+    """The collection under calls that only fix an order / make a copy (sorted, list, tuple, reversed, iter)."""
+    while isinstance(it, ast.Call) and isinstance(it.func, ast.Name) and it.func.id in ("list", "sorted", "tuple", "reversed", "iter") and len(it.args) == 1 \
+            and (not it.keywords or it.func.id == "sorted"):
+        it = it.args[0]
+    return it
+
+
+def _name_unpacked_entries(node, fields):
+    """`for k, (t, c, p) in m.items():` / `for (t, c, p) in m.values():` with as many names as the entry type has
+    fields, the names used inside the loop only and never rebound  ->  `for k, e in m.items():` with e.<field> in place
+    of the names: an entry taken apart by position is the entry read field by field."""
+    if not fields:
+        return node
+    used = {}
+    for x in ast.walk(node):
+        if isinstance(x, ast.Name):
+            used.setdefault(x.id, []).append(x)
+    n_new = 0
+    for lp in [x for x in ast.walk(node) if isinstance(x, ast.For)]:
+        it = strip_order(lp.iter)
+        if not (isinstance(it, ast.Call) and isinstance(it.func, ast.Attribute) and not it.args and not it.keywords):
+            continue
+        tgt, inner = lp.target, None
+        if it.func.attr == "items" and isinstance(tgt, (ast.Tuple, ast.List)) and len(tgt.elts) == 2 and isinstance(tgt.elts[1], (ast.Tuple, ast.List)):
+            inner = tgt.elts[1]
+        elif it.func.attr == "values" and isinstance(tgt, (ast.Tuple, ast.List)):
+            inner = tgt
+        if inner is None or len(inner.elts) != len(fields) or not all(isinstance(e, ast.Name) for e in inner.elts):
+            continue
+        names = [e.id for e in inner.elts]
+        if len(set(names) - {"_"}) != len([n_ for n_ in names if n_ != "_"]):
+            continue
+        inside = {id(x) for b_ in lp.body for x in ast.walk(b_)} | {id(e) for e in inner.elts}
+        okay = True
+        for nm in names:
+            for occ in used.get(nm, []):
+                if id(occ) not in inside or (not isinstance(occ.ctx, ast.Load) and not any(occ is e for e in inner.elts)):
+                    okay = okay and nm == "_" and any(occ is e for e in inner.elts)
+        if not okay or lp.orelse:
+            continue
+        n_new += 1
+        fresh = "entry_%d_" % n_new
+        while fresh in used:
+            fresh += "_"
+        field_of = {nm: f for nm, f in zip(names, fields) if nm != "_"}
+
+        class T(ast.NodeTransformer):
+            def visit_Name(self, n):
+                if isinstance(n.ctx, ast.Load) and n.id in field_of:
+                    return ast.copy_location(ast.Attribute(value=ast.Name(id=fresh, ctx=ast.Load()), attr=field_of[n.id], ctx=ast.Load()), n)
+                return n
+
+        lp.body = [T().visit(b_) for b_ in lp.body]
+        new_t = ast.copy_location(ast.Name(id=fresh, ctx=ast.Store()), inner)
+        if inner is tgt:
+            lp.target = new_t
+        else:
+            tgt.elts[1] = new_t
+        ast.fix_missing_locations(lp)
+    return node
+
+
 def view(ck, qual_or_fi, how):
     """The per-function bundle of a function rewritten into ONE spelling, so that a rule reads the same thing
     whichever way the code says it.  how='branches': conditional expressions that are the whole value of an
     assignment / return become if statements, dict comprehensions poured into a mapping become loops (the form the
     path rules of store() read).  how='collections': loops that only collect become comprehensions (the form the
-    key-source evaluation of the accessors reads).  Line numbers are those of the original statements."""
+    key-source evaluation of the accessors reads).  how='accessor': 'branches' with `try: ... self.m[k] ... except KeyError`
+    turned into the membership test it stands for (the form the exits of a get() are read in).  Line numbers are those of the original statements."""
     import copy
     from ..fa import FA
     from ..loader import FuncInfo
@@ -717,9 +833,14 @@ def view(ck, qual_or_fi, how):
     key = (fi.qual, id(fi.node), how, ck.exc_mode)
     if key not in memo:
         node = copy.deepcopy(fi.node)
-        _rewrite_blocks(node, _lower_stmt if how == "branches" else _raise_stmt)
+        if how == "accessor":
+            # the branches view of a get(): a lookup tried and caught is a membership test first
+            plain = plain_dict_fields(ck, fi.cls) if fi.cls is not None else set()
+            _rewrite_blocks(node, lambda st_: _lower_keyerror_try(st_, plain))
+        _rewrite_blocks(node, _lower_stmt if how in ("branches", "accessor") else _raise_stmt)
         if how == "branches":
             node = _merge_parts(node)
+            node = _name_unpacked_entries(node, entry_type_fields(ck))
         changed = ast.dump(node) != ast.dump(fi.node)
         inl = getattr(ck.repo, "inliner", None)
         if changed and inl is not None and how == "branches":
